@@ -346,7 +346,13 @@ def e16_chain_link(F, R, M, rule='E16'):
                         break
                     r = hit[0].ret
                     ev = err_variant(r)
-                    got = fo.ev(r[2][0]) if ev == 'Some' else None
+                    if ev is None and r is not None and r[0] == 'call' and r[2].endswith('::then_some') and len(r[3]) == 2:
+                        got = fo.ev(r[3][1]) if fo.ev(r[3][0]) else None      # cond.then_some(value)
+                    elif ev in ('Some', 'None'):
+                        got = fo.ev(r[2][0]) if ev == 'Some' else None
+                    else:
+                        bad = 'skip'
+                        break
                 except Unfoldable as e:
                     bad = 'unfoldable: %s' % e
                     break
@@ -356,6 +362,9 @@ def e16_chain_link(F, R, M, rule='E16'):
                     break
             if bad:
                 break
+        if bad == 'skip':
+            R.note('%s: link accessor returns its Option in a form that is not folded; not judged' % rule)
+            continue
         if bad and bad.startswith('unfoldable'):
             R.abstain(rule, '%s:chain-link' % b['id'], bad, fn_site(F, b['id']))
             continue
